@@ -493,3 +493,520 @@ def known_witness(fid):
         asig = eqsig.AccSignal(np.array([1.0, 1.0]), 1.0)
         return bool(sdof.calc_input_energy_spectrum(asig, periods=np.array([0.5]), xi=0.05)[0] < 0)
     return True
+
+
+# ---- extras2 (harness extension hx_a): large instances, extreme magnitudes, wrappers / defaults, containers, histories ----------------
+#
+# Not demanded (loud restriction of the domain on the pinned tree, or out of reach of an exact statement):
+#   * list / tuple RECORDS for pseudo_/true_response_spectra raise AttributeError (absmax(motion) needs an ndarray): arrays only;
+#   * unsigned-integer records: absmax negates the minimum in the record's dtype (see NOTES.md, suspected defect) -- not generated;
+#   * joint rescaling of dt and the periods: compute_a_and_b uses w ** 3 (libm pow), which need not commute with a power of two bit for bit;
+#   * calc_vsi_temporal needs np.trapz (absent from the pinned NumPy: AttributeError); sdof.single_elastic_response / slow_response_spectra
+#     are a rectangle-rule Duhamel sum (O(dt) accurate), no clause of C03 applies to them.
+
+X2_TAG = 'C03x'
+
+
+def _x2_aged_cheap(ctx, cls, values, dt, **kw):
+    """a long-record object that reached (values, dt) through a history WITHOUT the expensive reads of gen._touch: built on a short record of
+    another length, cheap quantities read, record replaced"""
+    rng = ctx.rng
+    kind = rng.choice(['fresh', 'reset-other-length/read-before', 'reset-other-length'])
+    ctx.hist('object-history(long)/' + kind)
+    if kind == 'fresh':
+        return cls(np.array(values, dtype=float), dt, **kw)
+    s = cls(np.array([rng.uniform(-1, 1) for _ in range(rng.randint(3, 9))]), dt, **kw)
+    if kind.endswith('read-before'):
+        for name in ('npts', 'time', 'velocity', 'displacement', 'pga', 'pgv'):
+            getattr(s, name)
+    s.reset_values(np.array(values, dtype=float))
+    return s
+
+
+def _x2_expected_object(a, dt, rt, xi, ratio):
+    """what AccSignal.gen_response_spectrum(xi, min_dt_ratio) must report: the pseudo spectra of the record at the step the property states"""
+    from eqsig import sdof
+    from eqsig.fns.time_step import interp_array_to_approx_dt
+    rt = np.asarray(rt, dtype=float)
+    tmin = rt[0] if rt[0] != 0 else rt[1]
+    target = max(tmin / 20, dt / ratio)
+    if target < dt:
+        vi, dti = interp_array_to_approx_dt(a, dt, target, even=False)
+    else:
+        vi, dti = a, dt
+    return sdof.pseudo_response_spectra(vi, dti, rt, 0.05 if xi == -1 else xi), dti, len(vi)
+
+
+def _x2_eq3(r, b):
+    return len(r) == len(b) and all(np.asarray(x).shape == np.asarray(y).shape and np.array_equal(np.asarray(x), np.asarray(y)) for x, y in zip(r, b))
+
+
+def _x2_envelope(rng, n):
+    return gen.noise_record(rng, n) * np.exp(-((np.arange(n) - n / 3) / (n / 5)) ** 2)
+
+
+def x2_absmax(ctx):
+    """sdof.absmax is the mechanism behind 'S_d = max_t |u(t)|' (signed extreme -> magnitude): it equals max|x| along the axis, for every sign
+    pattern (all negative, all positive, -min == max), size and float/signed-integer dtype"""
+    from eqsig import sdof
+    rng = ctx.rng
+    cl = 'C03 absmax(x, axis) == max |x| along that axis (every sign pattern, size and dtype)'
+    small = [np.array([[1., -3., 2.], [5., -1., 0.], [-2., -1., -7.], [0., 0., 0.]]), np.array([[-1., 1.], [2., -2.], [-0., 0.]]),
+             np.array([[1e300, -1.7e308], [5e-324, -5e-324], [-1e-310, 2e-320]]), np.array([[-4.]]), np.array([[3.], [-3.]])]
+    for it in range(40 if ctx.tier == 'quick' else 400):
+        r, c = rng.randint(1, 6), rng.randint(1, 9)
+        x = np.array([[rng.choice([-2, -1, 0, 1, 2, 0.5, -0.5]) for _ in range(c)] for _ in range(r)], dtype=float)
+        mode = rng.choice(['mixed', 'neg', 'pos', 'tie'])
+        if mode == 'neg':
+            x = -np.abs(x) - rng.choice([0, 1])
+        elif mode == 'pos':
+            x = np.abs(x)
+        elif mode == 'tie':
+            x[:, 0] = -np.max(np.abs(x), axis=1)
+        small.append(x)
+    shapes = [(2, 2 ** 19 + 3), (1200, 700)] if ctx.tier == 'quick' else [(3, 2 ** 20 + 5), (1500, 1000), (2, 2 ** 22 + 1), (5000, 900), (1, 2 ** 21)]
+    big = []
+    for sh in shapes:
+        seed = rng.randrange(2 ** 31)
+        x = np.random.default_rng(seed).standard_normal(sh)
+        x[0] = -np.abs(x[0])                    # a row whose extreme is the minimum
+        x[-1, rng.randrange(sh[1])] = -9.0      # the extreme sits at a random column of the last row ...
+        x[0, 0] = -12.0                         # ... in the first column of the first row, the last column of row 1 % rows
+        x[1 % sh[0], -1] = 11.0
+        big.append((x, {'x': f'standard_normal{sh} from numpy default_rng({seed}), row 0 negated in magnitude, x[0,0] = -12, x[1 % rows,-1] = 11, one -9 in the last row'}))
+    for x, desc in [(x, None) for x in small] + big:
+        ctx.hist('absmax/' + ('large' if desc else 'small'))
+        ctx.count_case(('absmax', x.shape, x.tobytes() if x.size < 100 else x[:, :20].tobytes()), x.size >= 3)
+        variants = [('float64', x)]
+        if desc is None and np.all(x == np.round(x)) and np.max(np.abs(x)) < 100:
+            variants += [('int64', x.astype(np.int64)), ('int32', x.astype(np.int32)), ('int8', x.astype(np.int8))]
+        if desc is None and np.array_equal(x.astype(np.float32).astype(float), x):
+            variants.append(('float32', x.astype(np.float32)))
+        for lab, xv in variants:
+            snap = xv.copy()
+            for axis in (1, None, 0):
+                want = np.max(np.abs(x), axis=axis)
+                r = call_impl(sdof.absmax, xv, axis) if axis is not None else call_impl(sdof.absmax, xv)
+                ok = r[0] == 'ok' and np.shape(r[1]) == np.shape(want) and bool(np.array_equal(np.asarray(r[1], dtype=float), want))
+                ctx.oracle(cl, ok, desc or {'x': x, 'dtype': lab, 'axis': axis},
+                           detail=None if ok else {'axis': axis, 'dtype': lab, 'got': r[1] if r[0] != 'ok' or np.size(r[1]) < 20 else 'array', 'want': want if np.size(want) < 20 else 'array'})
+            ctx.oracle('C03 absmax leaves its argument unchanged', bool(np.array_equal(xv, snap)), desc or {'x': x, 'dtype': lab})
+
+
+def x2_large(ctx):
+    """LARGE instances (records of 5 000 - 60 000 samples, > 2^20 period x sample cells): the clauses of C03 evaluated with NumPy in O(cells)
+    on the implementation's own response series, plus decomposition (entry i of a big job == the single-period call)"""
+    import eqsig
+    from eqsig import sdof, im
+    rng = ctx.rng
+    quick = ctx.tier == 'quick'
+    jobs = [(23000, 5, True), (6000, 200, False)] if quick else [(23000, 5, True), (6000, 200, False), (60000, 3, True), (9000, 300, False), (40000, 12, True), (5001, 230, True)]
+    for n, P, do_energy in jobs:
+        dt = rng.choice([0.01, 0.005, 0.02])
+        a = _x2_envelope(rng, n)
+        a[n - 1 - rng.randrange(40)] = rng.choice([-1.5, 1.5]) * float(np.max(np.abs(a)))     # the peak ground acceleration sits at the very end
+        xi = rng.choice([0.02, 0.05, 0.2, 0.0]) if not do_energy else rng.choice([0.02, 0.05, 0.2])
+        body = np.exp(np.linspace(math.log(20 * dt), math.log(400 * dt), P))
+        body[0] = 3.5 * dt                                  # one period below 6*dt (PGA substitution), one just above
+        if P > 2:
+            body[1] = 6.5 * dt
+        lead0 = rng.random() < 0.5
+        periods = np.concatenate([[0.0], body]) if lead0 else body
+        NP = len(periods)
+        inputs = {'motion': f'gaussian noise x gaussian envelope, n={n}, one sample of 1.5 x the peak among the last 40 (seed-derived)', 'dt': dt, 'xi': xi, 'cells': NP * n,
+                  'periods': ('0, ' if lead0 else '') + f'3.5*dt, 6.5*dt, then log-spaced 20*dt..400*dt ({NP} in all)'}
+        ctx.hist(f'large/{NP}x{n}')
+        ctx.count_case(('x2-large', n, P, dt, xi, lead0, a[:8].tobytes()), True, sample={'fn': 'spectra (large instance)', **inputs})
+        snap = a.copy()
+        rr = call_impl(sdof.response_series, a, dt, periods, xi)
+        rp = call_impl(sdof.pseudo_response_spectra, a, dt, periods, xi)
+        rt_ = call_impl(sdof.true_response_spectra, a, dt, periods, xi)
+        if not (rr[0] == rp[0] == rt_[0] == 'ok'):
+            ctx.oracle('C03 large instance: response_series / pseudo_ / true_response_spectra return', False, inputs, detail=[rr[0], rp[0], rt_[0]])
+            continue
+        u, v, ac = rr[1]
+        max_u, max_v, max_a = np.max(np.abs(u), axis=1), np.max(np.abs(v), axis=1), np.max(np.abs(ac), axis=1)
+        pga = float(np.max(np.abs(a)))
+        below = periods < dt * 6
+        w = np.ones(NP)
+        nz = periods != 0
+        w[nz] = 2 * np.pi / periods[nz]
+        psd, psv, psa = [np.asarray(x, dtype=float) for x in rp[1]]
+        tsd, tsv, tsa = [np.asarray(x, dtype=float) for x in rt_[1]]
+        fin = all(x.shape == (NP,) and bool(np.all(np.isfinite(x)) and np.all(x >= 0)) for x in (psd, psv, psa, tsd, tsv, tsa))
+        ctx.oracle('C03.b/c large instance: one entry per period, finite and non-negative (pseudo and true spectra)', fin, inputs)
+        if not fin:
+            continue
+        ctx.oracle('C03.b large instance: pseudo S_d == max_t |u(t)| of the response series (==)', bool(np.array_equal(psd, max_u)), inputs,
+                   detail={'rows': np.nonzero(psd != max_u)[0][:5]})
+        ctx.oracle('C03.c large instance: true S_d == max_t |u(t)|, S_v == max_t |v(t)| (==)', bool(np.array_equal(tsd, max_u) and np.array_equal(tsv, max_v)), inputs)
+        ctx.oracle('C03.b large instance: pseudo S_v == (2 pi / T) * S_d', bool(np.all(np.abs(psv - w * max_u) <= 1e-12 * np.maximum(w * max_u, 1e-300))), inputs)
+        want_pa = np.where(below, pga, w ** 2 * max_u)
+        ctx.oracle('C03.b large instance: pseudo S_a == (2 pi / T)^2 * S_d for T >= 6 dt and the peak ground acceleration for T < 6 dt',
+                   bool(np.all(np.abs(psa - want_pa) <= 1e-12 * np.maximum(want_pa, 1e-300))), inputs, detail={'sas': psa[:4], 'want': want_pa[:4]})
+        want_ta = np.where(below, pga, max_a)
+        ctx.oracle('C03.c large instance: true S_a == max_t |a_total(t)| for T >= 6 dt and the peak ground acceleration for T < 6 dt (==)',
+                   bool(np.array_equal(tsa, want_ta)), inputs, detail={'sas': tsa[:4], 'want': want_ta[:4]})
+        if lead0:
+            ctx.oracle('C03.b large instance, T = 0: S_d = S_v = 0 and S_a == peak ground acceleration', psd[0] == 0 and psv[0] == 0 and psa[0] == pga and tsa[0] == pga, inputs)
+        if xi == 0:
+            idx = [j for j in range(NP) if not below[j] and psa[j] > 0]
+            ctx.oracle('C03.c large instance, xi = 0, T >= 6 dt: true S_a equals the pseudo S_a (|ratio - 1| < 3e-9)', all(abs(tsa[j] / psa[j] - 1) < 3e-9 for j in idx), inputs)
+        # decomposition: entry i of the big job == the call with that period alone (and with the leading 0 kept)
+        for qj, j in enumerate(sorted(rng.sample(range(NP), min(NP, 2 if quick else 4)))):
+            for fname, whole in ((('pseudo_response_spectra', (psd, psv, psa)), ('true_response_spectra', (tsd, tsv, tsa)))[qj % 2],):
+                one = call_impl(getattr(sdof, fname), a, dt, periods[j:j + 1], xi)
+                ok = one[0] == 'ok' and all(np.asarray(o).shape == (1,) and float(np.asarray(o)[0]) == float(wq[j]) for o, wq in zip(one[1], whole))
+                ctx.oracle(f'C03 large instance: entry i of {fname} for a long period list == the single-period call (==)', ok, {**inputs, 'row': j, 'period': float(periods[j])},
+                           detail=None if ok else {'single': one[1] if one[0] == 'ok' else one, 'whole': [float(wq[j]) for wq in whole]})
+        ctx.oracle('input record unchanged', bool(np.array_equal(a, snap)), inputs)
+        if not do_energy:
+            continue
+        asig = _x2_aged_cheap(ctx, eqsig.AccSignal, a, dt)
+        r_uke = call_impl(sdof.calc_resp_uke_spectrum, asig, periods=periods, xi=xi)
+        r_ie = call_impl(sdof.calc_input_energy_spectrum, asig, periods=periods, xi=xi)
+        r_ies = call_impl(sdof.calc_input_energy_spectrum, asig, periods=periods, xi=xi, series=True)
+        if not (r_uke[0] == r_ie[0] == r_ies[0] == 'ok'):
+            ctx.oracle('C03.e energy spectra return on the domain of the response series', False, inputs, detail=[r_uke[0], r_ie[0], r_ies[0]])
+            continue
+        uke, ie, ies = np.asarray(r_uke[1]), np.asarray(r_ie[1]), np.asarray(r_ies[1])
+        terms = a[None, :] * v * dt
+        mag = np.maximum(np.sum(np.abs(terms), axis=1), 1e-300)
+        want_ie = np.array([math.fsum(row.tolist()) for row in terms])
+        want_uke = np.array([math.fsum(np.abs(np.diff(0.5 * row ** 2)).tolist()) for row in v])
+        ctx.oracle('C03.e large instance: calc_resp_uke_spectrum == sum_k |delta(v^2/2)| over the response series, one entry per period',
+                   uke.shape == (NP,) and bool(np.all(np.abs(uke - want_uke) <= 1e-11 * np.maximum(want_uke, 1e-300))), inputs)
+        ctx.oracle('C03.e large instance: calc_input_energy_spectrum == sum_k a[k] v[k] dt over the response series, one entry per period',
+                   ie.shape == (NP,) and bool(np.all(np.abs(ie - want_ie) <= 1e-11 * mag)), inputs, detail={'got': ie[:4], 'want': want_ie[:4]})
+        ok_s = ies.shape == (NP, n) and bool(np.all(np.abs(ies - np.cumsum(terms, axis=1)) <= 1e-9 * mag[:, None]) and np.all(np.abs(ies[:, -1] - ie) <= 1e-9 * mag))
+        ctx.oracle('C03.e large instance: calc_input_energy_spectrum(series=True) == running sums, whose last entry is the spectrum value', ok_s, inputs)
+        for j in range(NP):
+            T = float(periods[j])
+            if T == 0 or T / dt < 20 or ie.shape != (NP,):
+                continue
+            facts = {'fn': 'calc_input_energy_spectrum', 'clause': 'final>=0', 'n': n, 'T_over_dt': T / dt, 'xi': xi, 'record': 'burst'}
+            scale = max(float(np.max(np.abs(ies[j]))) if ok_s else abs(float(ie[j])), 1e-300)
+            ctx.oracle('C03.e the input energy is non-negative at the end of the record [broadband record, n >= 200, T/dt >= 6, xi >= 0.02]', bool(ie[j] >= -1e-9 * scale),
+                       {**inputs, 'period': T}, detail={'final': float(ie[j]), 'peak |series|': scale}, facts=facts)
+    # object API on a long record (interpolating branch): s_d/s_v/s_a == the pseudo spectra of the record at the stated step; never below raw
+    for n, ratio in ([(5200, 2)] if quick else [(5200, 2), (12000, 4), (30000, 1), (7001, 8)]):
+        dt = rng.choice([0.01, 0.02])
+        a = _x2_envelope(rng, n)
+        rt = sorted(dt * math.exp(rng.uniform(math.log(8), math.log(300))) for _ in range(4))
+        if rng.random() < 0.5:
+            rt = [0.0] + rt
+        inputs = {'values': f'gaussian noise x gaussian envelope, n={n} (seed-derived)', 'dt': dt, 'response_times': rt, 'min_dt_ratio': ratio}
+        ctx.hist('large/object-api')
+        ctx.count_case(('x2-large-obj', n, dt, tuple(rt), ratio, a[:8].tobytes()), True)
+        asig = _x2_aged_cheap(ctx, eqsig.AccSignal, a, dt, response_times=np.array(rt))
+        res = call_impl(lambda: (asig.gen_response_spectrum(min_dt_ratio=ratio), (asig.s_d, asig.s_v, asig.s_a))[1])
+        exp, dti, ni = _x2_expected_object(a, dt, rt, -1, ratio)
+        ctx.oracle('C03.d large instance: AccSignal s_d/s_v/s_a == pseudo_response_spectra applied to the record at the stated step (exactly)',
+                   res[0] == 'ok' and _x2_eq3(res[1], exp), inputs, detail=None if res[0] == 'ok' else res)
+        if res[0] != 'ok':
+            continue
+        raw = sdof.pseudo_response_spectra(a, dt, np.array(rt), 0.05)
+        for q, nm in ((0, 's_d'), (1, 's_v')):
+            ok = all(res[1][q][j] >= raw[q][j] - (0.0 if T == 0 else 2 * prop_tol(dti, T, ni)) * max(float(raw[q][j]), 1e-300) for j, T in enumerate(rt))
+            ctx.oracle(f'C03.d {nm} is never below the value computed from the raw samples', ok, inputs, detail={'object': res[1][q], 'raw': raw[q]})
+    # spectrum intensities at their default grids (141 / 241 periods) on a long record
+    for n in ([5500] if quick else [5500, 20000]):
+        dt = rng.choice([0.01, 0.005])
+        a = _x2_envelope(rng, n)
+        asig = _x2_aged_cheap(ctx, eqsig.AccSignal, a, dt)
+        ctx.count_case(('x2-large-int', n, dt, a[:8].tobytes()), True)
+        for fn, name, grid, g, q in ((im.calc_asi, 'asi', np.arange(0.1, 1.51, 0.01), 9.81, 2), (im.calc_vsi, 'vsi', np.arange(0.1, 2.51, 0.01), None, 1)):
+            inputs = {'values': f'gaussian noise x gaussian envelope, n={n} (seed-derived)', 'dt': dt, 'xi': 'default', 'periods': 'default grid', 'cells': n * len(grid)}
+            ctx.hist('large/' + name)
+            ps = sdof.pseudo_response_spectra(a, dt, grid, 0.05)[q]
+            want = float(np.max(0.01 * np.cumsum((np.abs(ps[1:]) + np.abs(ps[:-1])) / 2.0)))
+            want = want / g if g else want
+            res = call_impl(lambda: float(fn(asig)))
+            ctx.oracle(f'C03.f large instance: calc_{name} == max(0.01 * cumulative_trapezoid(|pseudo spectrum|))' + (' / 9.81' if g else '') + ' with the default xi = 0.05 and period grid',
+                       res[0] == 'ok' and abs(res[1] - want) <= 1e-12 * max(abs(want), 1e-300), inputs, detail={'got': res[1], 'want': want})
+
+
+def x2_extreme(ctx):
+    """the spectra are homogeneous in the record (degree 1: S_d, S_v, S_a, asi, vsi; degree 2: both energy spectra; degree 0: the periods of the
+    largest spectral velocity / acceleration): exact under scaling by powers of two, also for records around 1e+-180 (degree 1) / 1e+-120
+    (degree 2). (pseudo_response_spectra itself: C02 extras.)"""
+    import eqsig
+    from eqsig import sdof, im
+    rng = ctx.rng
+    for it in range(3 if ctx.tier == 'quick' else 30):
+        n = rng.randint(8, 90)
+        dt = rng.choice([0.01, 0.005, 0.02, 0.1])
+        a = gen.noise_record(rng, n) if it % 2 else gen.dyadic_record(rng, n)
+        if not np.any(a):
+            a[n // 2] = 1.0
+        periods = sorted(dt * rng.choice([3.0, 7.0, 12.5, 30.0, 100.0, 250.0]) for _ in range(rng.randint(2, 3)))
+        if rng.random() < 0.4:
+            periods = [0.0] + periods
+        parr = np.array(periods)
+        xi = rng.choice([0.0, 0.05, 0.3])
+        ratio = rng.choice([1, 2, 4, 8])
+        o0 = eqsig.AccSignal(a, dt, response_times=parr)
+        base = {
+            'true_response_spectra': call_impl(sdof.true_response_spectra, a, dt, parr, xi),
+            'AccSignal.gen_response_spectrum': call_impl(lambda: (o0.gen_response_spectrum(xi=xi, min_dt_ratio=ratio), (o0.s_d, o0.s_v, o0.s_a))[1]),
+            'calc_asi': call_impl(lambda: (im.calc_asi(o0, xi=xi, periods=parr[-2:]),)),
+            'calc_vsi': call_impl(lambda: (im.calc_vsi(o0, xi=xi, periods=parr[-2:]),)),
+        }
+        base2 = {
+            'calc_resp_uke_spectrum': call_impl(lambda: (sdof.calc_resp_uke_spectrum(o0, periods=parr, xi=xi),)),
+            'calc_input_energy_spectrum': call_impl(lambda: (sdof.calc_input_energy_spectrum(o0, periods=parr, xi=xi),)),
+            'calc_input_energy_spectrum(series=True)': call_impl(lambda: (sdof.calc_input_energy_spectrum(o0, periods=parr, xi=xi, series=True),)),
+        }
+        base0 = {'calc_max_velocity_period': call_impl(im.calc_max_velocity_period, o0), 'max_acceleration_period': call_impl(im.max_acceleration_period, o0)}
+        ctx.count_case(('x2-extreme', a.tobytes(), dt, tuple(periods), xi, ratio), True)
+
+        def again(name, o, sc_arr):
+            if name == 'true_response_spectra':
+                return call_impl(sdof.true_response_spectra, sc_arr, dt, parr, xi)
+            if name == 'AccSignal.gen_response_spectrum':
+                return call_impl(lambda: (o.generate_response_spectrum(xi=xi, min_dt_ratio=ratio), (o.s_d, o.s_v, o.s_a))[1])
+            if name == 'calc_asi':
+                return call_impl(lambda: (im.calc_asi(o, xi=xi, periods=parr[-2:]),))
+            if name == 'calc_vsi':
+                return call_impl(lambda: (im.calc_vsi(o, xi=xi, periods=parr[-2:]),))
+            if name == 'calc_resp_uke_spectrum':
+                return call_impl(lambda: (sdof.calc_resp_uke_spectrum(o, periods=parr, xi=xi),))
+            if name == 'calc_input_energy_spectrum':
+                return call_impl(lambda: (sdof.calc_input_energy_spectrum(o, periods=parr, xi=xi),))
+            return call_impl(lambda: (sdof.calc_input_energy_spectrum(o, periods=parr, xi=xi, series=True),))
+        for k in gen.EXTREME_POW2:
+            sc = 2.0 ** k
+            ctx.hist(f'extreme-scale/2^{k}')
+            o = ctx.aged(eqsig.AccSignal, a * sc, dt, response_times=parr)
+            inputs = {'values': a, 'dt': dt, 'periods': periods, 'xi': xi, 'min_dt_ratio': ratio, 'scale': f'2**{k}'}
+            for name, b in base.items():
+                if b[0] != 'ok':
+                    continue
+                r = again(name, o, a * sc)
+                ok = r[0] == 'ok' and all(gen.scaled_exactly(np.asarray(x, dtype=float), np.asarray(y, dtype=float), sc) for x, y in zip(r[1], b[1]))
+                ctx.oracle(f'C03 the spectra are homogeneous in the record: {name}(2^k a) == 2^k {name}(a) exactly, also for records around 1e-180 / 1e+180', ok, inputs,
+                           detail=None if ok else {'got': r[1] if r[0] == 'ok' else r, 'base': b[1]})
+            for name, b in base0.items():
+                if b[0] != 'ok':
+                    continue
+                r = call_impl(getattr(im, name), o)
+                ctx.oracle(f'C03 {name} (period of the largest spectral value) does not depend on the scale of the record, also at extreme scales',
+                           r[0] == 'ok' and float(r[1]) == float(b[1]), inputs, detail={'base': b[1], 'scaled': r[1]})
+        for k in (-400, 400, -200, 200):
+            sc = 2.0 ** k
+            ctx.hist(f'extreme-scale(degree 2)/2^{k}')
+            o = ctx.aged(eqsig.AccSignal, a * sc, dt, response_times=parr)
+            inputs = {'values': a, 'dt': dt, 'periods': periods, 'xi': xi, 'scale': f'2**{k}'}
+            for name, b in base2.items():
+                if b[0] != 'ok':
+                    continue
+                r = again(name, o, a * sc)
+                ok = r[0] == 'ok' and all(gen.scaled_exactly(np.asarray(x, dtype=float), np.asarray(y, dtype=float), sc * sc) for x, y in zip(r[1], b[1]))
+                ctx.oracle(f'C03.e the energy spectra are homogeneous of degree two: {name}(2^k a) == 4^k {name}(a) exactly, also for records around 1e-120 / 1e+120', ok, inputs,
+                           detail=None if ok else {'got': r[1] if r[0] == 'ok' else r, 'base': b[1]})
+
+
+def x2_wrappers_containers(ctx):
+    """wrappers and defaults == the main path; record / period containers and dtypes == the float64 result"""
+    import eqsig
+    from eqsig import sdof, im
+    rng = ctx.rng
+    for it in range(14 if ctx.tier == 'quick' else 140):
+        n = gen.log_int(rng, 3, 150)
+        dt = rng.choice([0.01, 0.02, 0.005, 0.25, 0.5])
+        whole = it % 2 == 0
+        a = gen.int_record(rng, n) if whole else gen.dyadic_record(rng, n)
+        rt = sorted(dt * rng.choice([2.0, 5.5, 6.0, 8.0, 16.0, 24.0, 64.0, 160.0]) for _ in range(rng.randint(2, 4)))
+        if rng.random() < 0.35:
+            rt = [0.0] + rt
+        parr = np.array(rt)
+        xi = rng.choice([0.05, 0.0, 0.3])
+        ratio = rng.choice([1, 2, 4, 8])
+        inputs = {'values': a, 'dt': dt, 'response_times': rt, 'xi': xi, 'min_dt_ratio': ratio}
+        ctx.count_case(('x2-wrap', a.tobytes(), dt, tuple(rt), xi, ratio), gen.nontrivial_record(a))
+        # (a) wrapper generate_response_spectrum == gen_response_spectrum
+        o1, o2 = ctx.aged(eqsig.AccSignal, a, dt, response_times=parr), eqsig.AccSignal(a, dt, response_times=parr)
+        r1 = call_impl(lambda: (o1.generate_response_spectrum(xi=xi, min_dt_ratio=ratio), (o1.s_d, o1.s_v, o1.s_a))[1])
+        r2 = call_impl(lambda: (o2.gen_response_spectrum(xi=xi, min_dt_ratio=ratio), (o2.s_d, o2.s_v, o2.s_a))[1])
+        ctx.oracle('C03.d wrapper AccSignal.generate_response_spectrum == gen_response_spectrum (same arguments, ==)',
+                   r1[0] == r2[0] and (r1[0] != 'ok' or _x2_eq3(r1[1], r2[1])), inputs, detail=(r1[0], r2[0]))
+        o3 = eqsig.AccSignal(gen.noise_record(rng, 5), dt)
+        r3 = call_impl(lambda: (o3.reset_values(a), o3.generate_response_spectrum(response_times=parr, xi=xi, min_dt_ratio=ratio), (o3.s_d, o3.s_v, o3.s_a))[2])
+        ctx.oracle('C03.d response_times passed as an argument == response_times given at construction (==)', r3[0] == r2[0] and (r3[0] != 'ok' or _x2_eq3(r3[1], r2[1])), inputs)
+        # (b) documented defaults of the energy spectra and the spectrum intensities: periods = the object's response_times, xi = 0.05
+        od = ctx.aged(eqsig.AccSignal, a, dt, response_times=parr)
+        for fname, f, kw in (('calc_resp_uke_spectrum', sdof.calc_resp_uke_spectrum, {}), ('calc_input_energy_spectrum', sdof.calc_input_energy_spectrum, {}),
+                             ('calc_input_energy_spectrum(series=True)', sdof.calc_input_energy_spectrum, {'series': True})):
+            d0, d1 = call_impl(f, od, **kw), call_impl(f, od, periods=parr, xi=0.05, **kw)
+            ctx.oracle(f'C03.e {fname}: the defaults are periods = response_times of the object and xi = 0.05 (==)',
+                       d0[0] == d1[0] and (d0[0] != 'ok' or np.array_equal(np.asarray(d0[1]), np.asarray(d1[1]))), inputs, detail=(d0[0], d1[0]))
+        if len(rt) >= 2:
+            for fname in ('calc_asi', 'calc_vsi'):
+                d0, d1 = call_impl(getattr(im, fname), od, periods=parr), call_impl(getattr(im, fname), od, xi=0.05, periods=parr)
+                ctx.oracle(f'C03.f {fname}: the default damping is xi = 0.05 (==)', d0[0] == d1[0] and (d0[0] != 'ok' or float(d0[1]) == float(d1[1])), inputs, detail=(d0, d1))
+        # (c) periods of the largest spectral velocity (xi = 0.15, 100 periods 0.1..2 s) / acceleration (xi = 0, 0.1..10 s): equality with the
+        #     object API on a fresh object; the signal handed in keeps its own periods and spectra
+        if it % 3 == 0 and np.any(a):
+            before = call_impl(lambda: (np.array(od.s_a, copy=True), np.array(od.response_times, copy=True)))
+            for fname, grid, xi_f, q in (('calc_max_velocity_period', np.logspace(-1, 0.3, 100), 0.15, 1), ('max_acceleration_period', np.logspace(-1, 1, 100), 0, 2)):
+                exp = _x2_expected_object(np.asarray(a, dtype=float), dt, grid, xi_f, 4)[0][q]
+                got = call_impl(getattr(im, fname), od)
+                ctx.hist('wrappers/' + fname)
+                ctx.oracle(f'C03 {fname} == the period, among its 100 log-spaced periods, of the largest entry of the AccSignal spectrum at its damping (==)',
+                           got[0] == 'ok' and float(got[1]) == float(grid[int(np.argmax(exp))]), inputs, detail={'got': got[1], 'want': float(grid[int(np.argmax(exp))])})
+            after = call_impl(lambda: (od.s_a, od.response_times))
+            ctx.oracle('C03 the period-of-maximum functions leave the response periods and spectra of the signal they are given unchanged',
+                       before[0] == after[0] == 'ok' and np.array_equal(before[1][0], after[1][0]) and np.array_equal(before[1][1], after[1][1]), inputs)
+        # (d) record containers / dtypes. Array-level functions: ndarrays only (lists and tuples raise AttributeError on the pinned tree: a loud
+        #     restriction of the domain); object API: every container (the constructor converts). Unsigned dtypes are not generated (NOTES.md).
+        ref_p = call_impl(sdof.pseudo_response_spectra, a, dt, parr, xi)
+        ref_t = call_impl(sdof.true_response_spectra, a, dt, parr, xi)
+        ref_o = r2
+        variants = [(lab, c, a) for lab, c in gen.container_variants(a)]
+        if whole:
+            variants += [(lab, c, fl) for lab, c, fl in gen.narrow_int_variants(a) if not lab.startswith('uint')]
+        for lab, c, fl in variants:
+            ctx.hist('record container=' + lab)
+            same_numbers = fl is a
+            if isinstance(c, np.ndarray):
+                for fname, ref in (('pseudo_response_spectra', ref_p), ('true_response_spectra', ref_t)):
+                    want = ref if same_numbers else call_impl(getattr(sdof, fname), fl, dt, parr, xi)
+                    got = call_impl(getattr(sdof, fname), c, dt, parr, xi)
+                    ctx.oracle(f'C03 {fname}: a record given as an integer / float32 / strided ndarray gives the spectra of the same numbers in float64 (==)',
+                               want[0] == 'ok' and same_triple(got, want), {**inputs, 'container': lab, 'values': fl}, detail=None if got[0] == 'ok' else got)
+            oc = call_impl(lambda: eqsig.AccSignal(c, dt, response_times=parr))
+            if oc[0] == 'ok':
+                got = call_impl(lambda: (oc[1].gen_response_spectrum(xi=xi, min_dt_ratio=ratio), (oc[1].s_d, oc[1].s_v, oc[1].s_a))[1])
+                if same_numbers:
+                    want = ref_o
+                else:
+                    ow = eqsig.AccSignal(fl, dt, response_times=parr)
+                    want = call_impl(lambda: (ow.gen_response_spectrum(xi=xi, min_dt_ratio=ratio), (ow.s_d, ow.s_v, ow.s_a))[1])
+                ctx.oracle('C03.d AccSignal built from a list / tuple / integer / float32 / strided record reports the spectra of the same numbers in float64 (==)',
+                           want[0] == 'ok' and got[0] == 'ok' and _x2_eq3(got[1], want[1]), {**inputs, 'container': lab, 'values': fl}, detail=None if got[0] == 'ok' else got)
+        # (e) period containers: float32 / strided ndarrays holding the same numbers
+        p32 = parr.astype(np.float32)
+        pv = [('strided', gen.container_variants(parr, arrays_only=True)[-1][1])]
+        if np.array_equal(p32.astype(float), parr):
+            pv.append(('float32', p32))
+        for lab, pc in pv:
+            ctx.hist('period container=' + lab)
+            for fname, ref in (('pseudo_response_spectra', ref_p), ('true_response_spectra', ref_t)):
+                got = call_impl(getattr(sdof, fname), a, dt, pc, xi)
+                ctx.oracle(f'C03 {fname}: float32 / strided period arrays give the same spectra as the float64 array (==)', ref[0] == 'ok' and same_triple(got, ref),
+                           {**inputs, 'period container': lab}, detail=None if got[0] == 'ok' else got)
+
+
+def x2_histories(ctx):
+    """consecutive gen_response_spectrum calls on ONE object that share some but not all of (record, periods, damping, min_dt_ratio), with exact
+    repeats: after each call s_d/s_v/s_a are the pseudo spectra for the CURRENT record and the arguments of that call; arrays read earlier are
+    not overwritten by a later call"""
+    import eqsig
+    rng = ctx.rng
+    for it in range(25 if ctx.tier == 'quick' else 250):
+        n = rng.randint(6, 80)
+        dt = rng.choice([0.01, 0.02, 0.25])
+        cur = gen.dyadic_record(rng, n)
+
+        def new_rt():
+            r = sorted(dt * rng.choice([3.0, 5.5, 6.0, 8.0, 16.0, 24.0, 64.0, 160.0]) for _ in range(rng.randint(2, 4)))
+            return np.array([0.0] + r if rng.random() < 0.3 else r)
+        rt, xi, ratio = new_rt(), rng.choice([0.05, 0.0, 0.3, -1]), rng.choice([1, 2, 4, 8])
+        asig = eqsig.AccSignal(cur.copy(), dt, response_times=np.array(rt))
+        held = []          # (array object, copy at the time it was read)
+        hist = []
+        for step in range(rng.randint(2, 6)):
+            ch = rng.choice(['same', 'xi', 'ratio', 'rt-arg', 'rt-attr', 'record', 'record-same-length-scaled', 'lazy', 'change+lazy'])
+            pass_rt = None
+            if ch == 'xi':
+                xi = rng.choice([x for x in (0.05, 0.0, 0.3, -1) if x != xi])
+            elif ch == 'ratio':
+                ratio = rng.choice([r for r in (1, 2, 4, 8) if r != ratio])
+            elif ch == 'rt-arg':
+                rt = new_rt()
+                pass_rt = np.array(rt)
+            elif ch == 'rt-attr':
+                rt = new_rt()
+                asig.response_times = np.array(rt)
+            elif ch == 'record':
+                cur = gen.dyadic_record(rng, rng.randint(6, 80))
+                asig.reset_values(cur.copy())
+            elif ch in ('record-same-length-scaled', 'change+lazy'):
+                cur = cur * rng.choice([2.0, -0.5])
+                asig.reset_values(cur.copy())
+            hist.append(ch)
+            inputs = {'start_record': 'dyadic', 'dt': dt, 'history': list(hist), 'current record': cur, 'response_times': rt, 'xi': xi, 'min_dt_ratio': ratio}
+            if ch in ('lazy', 'change+lazy'):
+                # no explicit call: the lazy properties regenerate (with the defaults xi = 0.05, min_dt_ratio = 4) only if the record or the
+                # periods changed since the last generation; otherwise they report the spectra of the last generation
+                if ch == 'change+lazy' or len(hist) == 1:
+                    eff_xi, eff_ratio = 0.05, 4
+                else:
+                    eff_xi, eff_ratio = last_xi, last_ratio
+                got = call_impl(lambda: (asig.s_d, asig.s_v, asig.s_a))
+            else:
+                eff_xi, eff_ratio = xi, ratio
+                got = call_impl(lambda: (asig.gen_response_spectrum(response_times=pass_rt, xi=xi, min_dt_ratio=ratio), (asig.s_d, asig.s_v, asig.s_a))[1])
+            last_xi, last_ratio = eff_xi, eff_ratio
+            exp = _x2_expected_object(cur, dt, rt, eff_xi, eff_ratio)[0]
+            ctx.hist('spectrum-history/' + ch)
+            ctx.oracle('C03.d after any sequence of gen_response_spectrum calls / record and period changes on one object, s_d/s_v/s_a are the pseudo spectra of the '
+                       'CURRENT record for the arguments of the last generation (==)', got[0] == 'ok' and _x2_eq3(got[1], exp), inputs,
+                       detail=None if got[0] != 'ok' else {'s_a': got[1][2], 'want': exp[2]}, facts={'history': list(hist)})
+            okh = all(np.array_equal(arr, cp) for arr, cp in held)
+            ctx.oracle('C03.d spectra read from an object earlier are not overwritten when the object regenerates them', okh, inputs, facts={'history': list(hist)})
+            if got[0] == 'ok':
+                held.extend((x, np.array(x, copy=True)) for x in got[1])
+        ctx.count_case(('x2-hist', cur.tobytes(), tuple(hist)), True, sample={'fn': 'gen_response_spectrum history', 'history': hist} if it < 1 else None)
+
+
+def extras2(ctx):
+    x2_absmax(ctx)
+    x2_large(ctx)
+    x2_extreme(ctx)
+    x2_wrappers_containers(ctx)
+    x2_histories(ctx)
+
+
+_run_main2 = run
+
+
+def run(ctx):
+    _run_main2(ctx)
+    extras2(ctx)
+    ctx.flush()
+
+
+# ---- open finding F03-4: arithmetic in the record's own integer dtype (see _narrow_findings.py) -------------------------------------------
+
+import _narrow_findings as _NF  # noqa: E402
+
+
+def _narrow_table():
+    from eqsig import sdof
+    return {'absmax': lambda x, dt: sdof.absmax(x),
+            'pseudo_response_spectra': lambda x, dt: sdof.pseudo_response_spectra(x, dt, [0.0, dt * 2, 0.5], 0.05)}
+
+
+try:
+    KNOWN_MATCHERS
+except NameError:
+    KNOWN_MATCHERS = {}
+KNOWN_MATCHERS['F03-4'] = _NF.matcher('F03-4')
+_known_witness_prev = globals().get('known_witness')
+
+
+def known_witness(fid):
+    if fid == 'F03-4':
+        from eqsig import sdof
+        return float(sdof.absmax(np.array([40, 200], dtype=np.uint8))) != 200.0
+    return _known_witness_prev(fid) if _known_witness_prev else True
+
+
+_run_main_nf = run
+
+
+def run(ctx):
+    _run_main_nf(ctx)
+    _NF.narrow_oracles(ctx, 'C03', _narrow_table(), variants_fn=_NF.absmax_variants)
+    ctx.flush()
